@@ -28,6 +28,7 @@ type Tape struct {
 	Tail         string   `json:"tail"`                    // response to every further request
 	API          string   `json:"api,omitempty"`           // do | get | post | head | header
 	SelfRedirect bool     `json:"self_redirect,omitempty"` // "302 same host" points at the URL just requested
+	Cycle        []string `json:"cycle,omitempty"`         // when set, the tail is this sequence repeated for ever instead of one constant response
 	GapS         int64    `json:"gap_s,omitempty"`         // simulated seconds between the earlier calls and the judged one (tickets then live 10 minutes, renewable)
 	Warm         []string `json:"warm,omitempty"`          // earlier calls of the same spnego.Client (GET), each against a server answering this kind for ever
 }
@@ -60,7 +61,7 @@ func Meta() core.Meta {
 		Rule:       "case = one run: a logged-in real client issues one HTTP call through spnego.Client against a scripted server: every response sequence of length <= 3 (quick) / <= 5 (thorough) over {200, 401 bare Negotiate, 401 Negotiate with reject token, 401 other scheme, 302 same host, 302 other host, 500} followed by each constant tail is enumerated; method {GET, HEAD, POST, PUT}, body size {0, 1, 4 KiB, 1 MiB}, how much of the body the server reads before answering {all, k bytes, none}, explicit or URL-derived SPN (port, trailing dot, CNAME, failed look-up, upper case) and the etype of the service ticket are drawn per case; distinct = distinct (script, tail, method, body class, read class, SPN class, outcome); non-trivial = the server sent at least one challenge or redirect",
 		SweepQuick: scriptsUpTo(3), SweepThorough: scriptsUpTo(5),
 		SeededQuick: 1500, SeededThorough: 60000,
-		WorkloadProbes: []string{"challenged", "challenged-with-body", "early-response-before-body-read", "ever-challenging-tail", "ever-redirecting-tail", "reused-client", "reused-client-after-redirect-limit", "reused-client-after-ticket-expiry", "cross-realm-service", "redirect-then-challenge", "spn-derived-via-cname", "spn-derived-lookup-failed", "token-checked-by-acceptor"},
+		WorkloadProbes: []string{"challenged", "challenged-with-body", "early-response-before-body-read", "ever-challenging-tail", "ever-redirecting-tail", "periodic-tail", "reused-client", "reused-client-after-redirect-limit", "reused-client-after-ticket-expiry", "cross-realm-service", "redirect-then-challenge", "spn-derived-via-cname", "spn-derived-lookup-failed", "token-checked-by-acceptor"},
 		Components: map[string]string{
 			"spnego.Client (Do/Get/Post/Head), SetSPNEGOHeader, setRequestSPN, SPNEGOClient, NewNegTokenInitKRB5, NewKRB5TokenAPREQ, krb5 client, token encoders": "real",
 			"net/http client (redirect policy, cookie jar)": "real",
@@ -119,6 +120,12 @@ func Gen(caseID, tier string) (json.RawMessage, error) {
 		tp.Tail = alphabet[r.Intn(len(alphabet))]
 		if r.Chance(1, 2) {
 			tp.Tail = "200"
+		}
+	}
+	if r.Chance(1, 6) {
+		// a periodic tail: the server alternates for ever (challenge / redirect / ...)
+		for k := r.Range(2, 3); k > 0; k-- {
+			tp.Cycle = append(tp.Cycle, r.Pick("401-negotiate", "302-same", "302-other", "302-same", "401-reject-token", "500"))
 		}
 	}
 	tp.Etype = etypes[r.Intn(len(etypes))]
